@@ -39,13 +39,13 @@ def target_connection_emitters():
                     def to_string(self, decimals=-1):
                         asked.append((self.name, decimals))
                         return f"<{self.name}>"
-                me = type("Me", (), {"_elements": [Child("a"), Child("b"), Child("c")]})()
                 ns = {"map": map}
+                me = type("Me", (O.auto_methods("circuit/base", "Connection", ns),), {"_elements": [Child("a"), Child("b"), Child("c")]})()
                 O.load(module, [qual], ns)
                 out = ns["to_string"](me, decimals=decimals)
                 sess.check("post", [], z3.BoolVal(out == f"{lo}<a><b><c>{hi}" and asked == [("a", decimals), ("b", decimals), ("c", decimals)]), 0,
                            label=f"{qual}(decimals={decimals}) == '{lo}' + children in order (same decimals, each asked once) + '{hi}'")
-                empty = type("Me", (), {"_elements": []})()
+                empty = type("Me", (O.auto_methods("circuit/base", "Connection", ns),), {"_elements": []})()
                 sess.check("post", [], z3.BoolVal(ns["to_string"](empty, decimals=decimals) == lo + hi), 0, label=f"{qual}(decimals={decimals}) of an empty connection == '{lo}{hi}'")
         # Circuit
         asked = []
@@ -103,7 +103,7 @@ def target_element_emitter():
             lows = {"R": (-math.inf if lo_inf[0] else 0.5), "Yq": (-math.inf if lo_inf[1] else 0.031)}
             ups = {"R": (math.inf if up_inf[0] else 7.5), "Yq": (math.inf if up_inf[1] else 0.87)}
             fx = {"R": fixed[0], "Yq": fixed[1]}
-            me = type("E", (), {"_label": label, "get_symbol": lambda s: "Sy", "get_values": lambda s: dict(vals), "get_lower_limits": lambda s: dict(lows),
+            me = type("E", (O.auto_methods("circuit/base", "Element", ns),), {"_label": label, "get_symbol": lambda s: "Sy", "get_values": lambda s: dict(vals), "get_lower_limits": lambda s: dict(lows),
                                 "get_upper_limits": lambda s: dict(ups), "are_fixed": lambda s: dict(fx)})()
             out = fn(me, decimals=decimals)
             n += 1
@@ -167,8 +167,8 @@ def target_container_emitter():
                     asked.append((self.name, decimals))
                     return f"<{self.name}>"
             subs = {"Zeta": Con("zeta", 2), "X_1": None, "X_2": Con("x2", 0), "Z_A": Con("za", 0, children=1)}
-            me = type("C", (), {"_subcircuit_value": subs})()
             ns = {"super": lambda: type("S", (), {"to_string": lambda s, decimals=-1: own})(), "sorted": sorted, "len": len}
+            me = type("C", (O.auto_methods("circuit/base", ["Container", "Element"], ns),), {"_subcircuit_value": subs})()
             O.load("circuit/base", ["Container.to_string"], ns)
             out = ns["to_string"](me, decimals=decimals)
             head, rest = own[:3], own[3:]
